@@ -426,4 +426,23 @@ mutant("c10-remat-output-binding-reversed", "C10", R2, "        for outer_var, i
 mutant("c10-custom-vjp-outputs-bound-before-body", "C10", "jax2onnx/plugins/jax/core/custom_vjp_call.py", "        lower_jaxpr_eqns(ctx, inner_jaxpr, source=\"custom_vjp\")\n\n        for outer_var, inner_var in zip(eqn.outvars, inner_jaxpr.outvars):\n            ctx.bind_value_for_var(outer_var, ctx.get_value_for_var(inner_var))", "        for outer_var, inner_var in zip(eqn.outvars, inner_jaxpr.outvars):\n            ctx.bind_value_for_var(outer_var, ctx.get_value_for_var(inner_var))\n\n        lower_jaxpr_eqns(ctx, inner_jaxpr, source=\"custom_vjp\")", expect="wiring")
 mutant("c10-amin-forwards-max-rule", "C10", "jax2onnx/plugins/jax/numpy/amin.py", "register_reduction_batch_rule(JnpAminPlugin._PRIM, jax.lax.reduce_min_p)", "register_reduction_batch_rule(JnpAminPlugin._PRIM, jax.lax.reduce_max_p)", expect="R-C10c")
 multi("c10-batch-rule-rebind-whitelist", "C10", "mutant", [(RUF, "        (operand,), (bdim,) = batched_args, batch_dims\n", "        (operand,), (bdim,) = batched_args, batch_dims\n        passthrough = {name: params[name] for name in (\"dtype\", \"keepdims\") if name in params}\n"), (RUF, "                axes_is_tuple=axes_is_tuple,\n                **params,", "                axes_is_tuple=axes_is_tuple,\n                **passthrough,")], expect="R-C10d")
+# R-C10e: axis-label evaluation of batching rules
+mutant("c10-softmax-batch-rule-canonicalises-against-batched-rank", "C10", "jax2onnx/plugins/jax/nn/softmax.py", "    body_rank = x.ndim - 1 if x_bdim is not None else x.ndim\n", "    body_rank = x.ndim\n", expect="R-C10e")
+mutant("c10-log-softmax-batch-rule-canonicalises-against-batched-rank", "C10", "jax2onnx/plugins/jax/nn/log_softmax.py", "    body_rank = x.ndim - 1\n", "    body_rank = x.ndim\n", expect="R-C10e")
+mutant("c10-one-hot-batch-rule-axis-not-shifted", "C10", "jax2onnx/plugins/jax/nn/one_hot.py", "        axis=axis_int + 1,\n", "        axis=axis_int,\n", expect="R-C10e")
+mutant("c10-argmax-batch-rule-negative-axis-not-canonicalised", "C10", "jax2onnx/plugins/jax/numpy/argmax.py", "    shifted_axes = tuple((int(ax) % slice_rank if slice_rank else 0) + 1 for ax in axes)\n", "    shifted_axes = tuple(int(ax) + 1 for ax in axes)\n", expect="R-C10e")
+mutant("c10-glu-batch-rule-axis-not-shifted", "C10", "jax2onnx/plugins/jax/nn/glu.py", "    out = GluPlugin._PRIM.bind(x_front, axis=axis_norm + 1)", "    out = GluPlugin._PRIM.bind(x_front, axis=axis_norm)", expect="R-C10e")
+mutant("c10-mean-batch-rule-axes-not-shifted", "C10", "jax2onnx/plugins/jax/numpy/mean.py", "        axes_full = tuple(ax + 1 for ax in axes_norm)", "        axes_full = axes_norm", expect="R-C10e")
+mutant("c10-take-batch-rule-wrong-out-dim", "C10", "jax2onnx/plugins/jax/numpy/take.py", "    result = jax.vmap(_call_single, in_axes=in_axes)(arr, indices)\n    return result, 0", "    result = jax.vmap(_call_single, in_axes=in_axes)(arr, indices)\n    return result, 1", expect="R-C10e")
+mutant("c10-sort-batch-rule-axis-not-shifted", "C10", "jax2onnx/plugins/jax/numpy/sort.py", "    axis_full = axis_norm + 1", "    axis_full = axis_norm", expect="R-C10e")
+mutant("c10-stack-batch-rule-axis-not-shifted", "C10", "jax2onnx/plugins/jax/numpy/stack.py", "    stack_axis = axis_norm + 1", "    stack_axis = axis_norm", expect="R-C10e")
+mutant("c10-transpose-batch-rule-perm-not-shifted", "C10", "jax2onnx/plugins/jax/numpy/transpose.py", "    perm = (0,) + tuple(int(ax) + 1 for ax in permutation)", "    perm = (0,) + tuple(int(ax) for ax in permutation)", expect="R-C10e")
+mutant("c10-cumsum-batch-rule-none-uses-last-axis", "C10", "jax2onnx/plugins/jax/numpy/cumsum.py", "        flat = jnp.reshape(operand, (batched_shape[0], -1))\n        params[\"axis\"] = 1\n        out = JnpCumSumPlugin._PRIM.bind(flat, **params)", "        flat = operand\n        params[\"axis\"] = operand.ndim - 1\n        out = JnpCumSumPlugin._PRIM.bind(flat, **params)", expect="R-C10e")
+mutant("c10-logsumexp-batch-rule-vmaps-wrong-axis", "C10", "jax2onnx/plugins/jax/nn/logsumexp.py", "    operand = batching.bdim_at_front(operand, bdim, axis_size)\n    axis_arg", "    axis_arg", expect="R-C10e")
+mutant("c10-unstack-batch-rule-reports-wrong-dims", "C10", "jax2onnx/plugins/jax/numpy/unstack.py", "    return outs, tuple(0 for _ in outs)", "    return outs, tuple(1 for _ in outs)", expect="R-C10e")
+mutant("c10-diagonal-batch-rule-skips-front-move", "C10", "jax2onnx/plugins/jax/numpy/diagonal.py", "    x_front = batching.bdim_at_front(x, int(bdim), batch_size)", "    x_front = x", expect="R-C10e")
+benign("c10-benign-glu-batch-rule-rank-via-shape", "C10", "jax2onnx/plugins/jax/nn/glu.py", "    slice_rank = x_front.ndim - 1", "    slice_rank = len(x_front.shape) - 1")
+benign("c10-benign-sort-batch-rule-explicit-canonicalisation", "C10", "jax2onnx/plugins/jax/numpy/sort.py", "        axis_norm = axis_int % slice_rank\n", "        axis_norm = axis_int if axis_int >= 0 else axis_int + slice_rank\n")
+benign("c10-benign-one-hot-batch-rule-unconditional-move", "C10", "jax2onnx/plugins/jax/nn/one_hot.py", "    if bd != 0:\n        x = jnp.moveaxis(x, bd, 0)\n", "    x = jnp.moveaxis(x, bd, 0)\n")
+benign("c10-benign-argmax-batch-rule-helper-variable", "C10", "jax2onnx/plugins/jax/numpy/argmax.py", "    shifted_axes = tuple((int(ax) % slice_rank if slice_rank else 0) + 1 for ax in axes)\n", "    canon_axes = [int(ax) % slice_rank if slice_rank else 0 for ax in axes]\n    shifted_axes = tuple(c + 1 for c in canon_axes)\n")
 benign("c10-benign-remat-loop-names", "C10", R2, "        for outer_var, inner_var in zip(eqn.outvars, inner_jaxpr.outvars):\n            ctx.bind_value_for_var(outer_var, ctx.get_value_for_var(inner_var))", "        for dst, produced in zip(eqn.outvars, inner_jaxpr.outvars):\n            ctx.bind_value_for_var(dst, ctx.get_value_for_var(produced))")
